@@ -12,6 +12,7 @@ mod s_engine;
 mod s_expr;
 mod s_keys;
 mod s_limits;
+mod s_macros;
 mod s_params;
 mod s_print;
 mod s_snapshot;
@@ -45,6 +46,7 @@ fn main() {
         "print" => s_print::run(&opts),
         "params" => s_params::run(&opts),
         "keys" => s_keys::run(&opts),
+        "macros" => s_macros::run(&opts),
         "untrusted" => s_untrusted::run(&opts),
         "untrusted-child" => s_untrusted::child(&opts),
         "parsetext" => s_print::parsetext(),
